@@ -24,7 +24,10 @@ def enum(run, **kw):
     return d
 
 PROPS = {
-    "C01": {"jobs": [rapid("TestC01", 1500, 20000), enum("TestC01Sweep")]},
+    "C01": {"jobs": [rapid("TestC01", 1500, 20000), enum("TestC01Sweep"),
+                     # attribution under concurrency: sibling runs on one wire (the C11 scenario judged for C01's clause
+                     # "replies to another run's probes never create a hop")
+                     rapid("TestC11", 400, 2000, name="TestC11(siblings)")]},
     "C02": {"jobs": [rapid("TestC02", 1500, 15000), enum("TestC02Product")]},
     "C03": {"jobs": [rapid("TestC03Protocol", 1500, 10000), rapid("TestC03Engine", 8000, 60000), enum("TestC03AllPairs")]},
     "C04": {"jobs": [rapid("TestC04", 1500, 10000)]},
@@ -34,7 +37,7 @@ PROPS = {
     "C09": {"jobs": [rapid("TestC09", 3000, 10000), enum("TestC09Truncations"), enum("TestC09TCPOptions")] +
             [fuzz("FuzzC09" + v) for v in ("icmp4", "icmp6", "udp4", "udp6", "tcp", "tcpparis", "sack", "Parser")]},
     "C10": {"jobs": [enum("TestC10Single"), rapid("TestC10Multi", 2500, 8000)]},
-    "C06": {"jobs": [rapid("TestC06", 1200, 8000), enum("TestC06AllTTLs"), enum("TestC06UDP6ChecksumSearch")]},
+    "C06": {"jobs": [rapid("TestC06", 1200, 8000), enum("TestC06AllTTLs"), enum("TestC06UDP6ChecksumSearch"), rapid("TestC06Concurrent", 600, 4000)]},
     "C20": {"jobs": [enum("TestC20Table"), rapid("TestC20", 2000, 2000), enum("TestC20ConnectTimeout")]},
     "C11": {"jobs": [rapid("TestC11", 800, 4000), rapid("TestC11Request", 800, 3000), rapid("TestC11Alloc", 500, 3000), enum("TestC11EchoIDs")]},
     "C12": {"jobs": [enum("TestC12Classes"), rapid("TestC12Random", 20000, 300000), rapid("TestC12EndToEnd", 1500, 10000)]},
